@@ -3,6 +3,11 @@
 SEED=${1:-1}; TIER=${2:-quick}; shift 2 2>/dev/null
 IDS="$@"; [ -z "$IDS" ] && IDS="C01 C02 C03 C04 C05 C06 C07 C08 C09 C10 C11 C12 C13 C14 C15 C16 C17 C18 C19 C20"
 cd "$(dirname "$(readlink -f "$0")")/.."
+if [ -n "${SWEEP_BUILD_ONCE:-}" ]; then
+  # build now, reuse the binary for every property (see ./check)
+  ./check C19 --tier quick >/dev/null 2>&1
+  export VERIF_NOBUILD=1
+fi
 for p in $IDS; do
   s=$(date +%s)
   out=$(VERIF_SEED=$SEED ./check $p --tier $TIER 2>&1); rc=$?
